@@ -27,6 +27,9 @@ func init() {
 			"(R07.2) every number rewrite and zero repair is unreachable with KeepNumbers; (R07.3) the leading-zero repair: when the shortened number starts with '.' a \"0\" is written first, when it starts with \"-.\" a \"-0\" is written and the sign dropped, on every path to the write of the number. Not covered: numeric equality (C08), separator state machine (parser), `never longer`.",
 		Run: runC07,
 	})
+	mutant(&Mutant{Name: "c06-text-written-without-cdata-end-escape", Property: "C06", File: "xml/xml.go",
+		Old: "\t\t\tt.Data, brackets = escapeCDATAEnd(t.Data, brackets)\n\t\t\tw.Write(t.Data)\n", New: "\t\t\tw.Write(t.Data)\n",
+		Rule: "R06.9", Construct: "after the ]]> escaper"})
 	mutant(&Mutant{Name: "c06-pi-dropped", Property: "C06", File: "xml/xml.go",
 		Old: "\t\tcase xml.StartTagPIToken:\n\t\t\tw.Write(t.Data)\n", New: "\t\tcase xml.StartTagPIToken:\n",
 		Rule: "R06.1", Construct: "case xml.StartTagPIToken"})
@@ -92,6 +95,7 @@ func init() {
 
 func runC06(c *Ctx) {
 	defer c.tokenBuffer("R06.8", "xml")
+	defer c.r069("R06.9", "xml")
 	const r1, r2, r3 = "R06.1", "R06.2", "R06.3"
 	c.R.Rule(r1, "the `switch t.TokenType` of xml.(*Minifier).Minify has a case for every constant of parse/v2/xml.TokenType except CommentToken (comments are the only nodes removed); in every case other than ErrorToken, every path from the case to the next token passes a w.Write(…) on the output writer; the only token skipped before the switch is the CDATA section with empty text")
 	c.R.Rule(r2, "assuming o.KeepWhitespace: the trim of the last space of a text token before a start/end tag is unreachable, and in the StartTagToken and EndTagToken cases every path passes `omitSpace = false` (the next text keeps its leading space)")
@@ -964,4 +968,136 @@ func zeroWriteNodes(c *Ctx, pk interface{}, g *flow.Graph) []*flow.Node {
 		}
 	}
 	return out
+}
+
+// R06.9 (= R09.16): character data never contains `]]>`.
+func (c *Ctx) r069(rule, rel string) {
+	c.R.Rule(rule, "XML 1.0 §2.4: the string `]]>` must not occur in character data, so the `>` after `]]` has to stay `&gt;`. The minifier decodes `&gt;` in text, turns short CDATA sections into text (the usual way to write `]]>` inside CDATA is to split it over two sections: `<![CDATA[x]]]]><![CDATA[>y]]>`) and drops comments between texts — each of which can put a `>` behind `]]` in the output. In "+rel+".(*Minifier).Minify the data written for a text token, and the text that replaces a CDATA section, are results of a function of the package that writes `&gt;` (the escaper, which is told how many `]` ended the character data written before); no other assignment to the data lies between that call and the write")
+	pk := c.pkg(rule, rel)
+	if pk == nil {
+		return
+	}
+	info := pk.TypesInfo
+	fd := c.fn(rule, pk, "Minifier.Minify")
+	if fd == nil {
+		return
+	}
+	g := c.graph(pk, fd)
+	isEscaper := func(e ast.Expr) bool {
+		call, ok := ast.Unparen(e).(*ast.CallExpr)
+		if !ok {
+			return false
+		}
+		fo, _ := callee(info, call).(*types.Func)
+		if fo == nil || fo.Pkg() != pk.Types {
+			return false
+		}
+		d := load.Func(pk, fo.Name())
+		if d == nil || d.Body == nil {
+			return false
+		}
+		hit := false
+		ast.Inspect(d.Body, func(z ast.Node) bool {
+			if bl, ok := z.(*ast.BasicLit); ok && bl.Kind == token.STRING && strings.Contains(bl.Value, "&gt;") {
+				hit = true
+			}
+			return true
+		})
+		return hit
+	}
+	assignsData := func(q *flow.Node) (ast.Expr, bool) {
+		as, ok := q.Stmt.(*ast.AssignStmt)
+		if !ok || q.Kind != flow.KStmt {
+			return nil, false
+		}
+		for i, l := range as.Lhs {
+			if s := nospace(str(l)); s == "t.Data" || s == "t.Text" {
+				if len(as.Rhs) == len(as.Lhs) {
+					return as.Rhs[i], true
+				}
+				return as.Rhs[0], true
+			}
+		}
+		return nil, false
+	}
+	n := 0
+	// (a) writes of text token data
+	for _, y := range g.Nodes {
+		a := y.Ast()
+		if a == nil || y.Kind != flow.KStmt {
+			continue
+		}
+		s := nospace(str0(a))
+		if s != "w.Write(t.Data)" && s != "w.Write(t.Text)" {
+			continue
+		}
+		inText := false
+		for _, f := range g.DomFacts(y) {
+			if f.Test.Kind == flow.KCase && f.Value && nospace(str(f.Test.Expr)) == "xml.TextToken" {
+				inText = true
+			}
+		}
+		if !inText {
+			continue
+		}
+		n++
+		// the last assignment to the data on every path to the write is the escaper
+		caseHead := func(q *flow.Node) bool {
+			return q.Kind == flow.KTrue && q.Of != nil && q.Of.Kind == flow.KCase && nospace(str(q.Of.Expr)) == "xml.TextToken"
+		}
+		var starts []*flow.Node
+		for _, q := range g.Nodes {
+			if caseHead(q) {
+				starts = append(starts, q)
+			}
+		}
+		y := y
+		p := g.Path(flow.Search{From: starts, Goal: func(q *flow.Node) bool { return q == y }, Avoid: func(q *flow.Node) bool {
+			rhs, ok := assignsData(q)
+			return ok && isEscaper(rhs)
+		}})
+		ok := p == nil
+		if ok {
+			// and nothing reassigns the data after the escaper
+			for _, q := range g.Nodes {
+				rhs, isAs := assignsData(q)
+				if !isAs || !isEscaper(rhs) || !g.Dominates(q, y) {
+					continue
+				}
+				q := q
+				if p2 := g.Path(flow.Search{From: []*flow.Node{q}, Goal: func(z *flow.Node) bool {
+					r2, ok2 := assignsData(z)
+					return ok2 && !isEscaper(r2)
+				}, Avoid: func(z *flow.Node) bool { return z == y }}); p2 != nil {
+					ok = false
+				}
+			}
+		}
+		c.R.Check(ok, rule, fmt.Sprintf("%s.Minifier.Minify/text written#%d after the ]]> escaper", rel, n), c.pos(a), "the data is the escaper's result", "the data of a text token is written without passing the function that keeps the `>` of `]]>` escaped: `<a>]]&gt;</a>` → `<a>]]></a>`, which is not well-formed")
+	}
+	// (b) CDATA converted to text
+	m := 0
+	for _, y := range g.Nodes {
+		rhs, ok := assignsData(y)
+		if !ok {
+			continue
+		}
+		under := false
+		for _, f := range g.DomFacts(y) {
+			if f.Value && f.Test.Kind == flow.KCond && nospace(str(f.Test.Expr)) == "useText" {
+				under = true
+			}
+		}
+		if !under {
+			continue
+		}
+		// the assignment that takes over the converted text (mentions the converted value, not a white space helper)
+		if len(findCalls(info, rhs, false, load.ParseMod+".ReplaceMultipleWhitespace", load.ParseMod+".TrimWhitespace")) > 0 {
+			continue
+		}
+		m++
+		c.R.Check(isEscaper(rhs), rule, fmt.Sprintf("%s.Minifier.Minify/CDATA converted to text#%d through the ]]> escaper", rel, m), c.pos(y.Ast()), "the text is the escaper's result", "a CDATA section is replaced by plain text without keeping a `>` behind `]]` escaped: `<![CDATA[x]]]]><![CDATA[>y]]>` → `x]]>y`, which is not well-formed")
+	}
+	c.R.Floor(rule, "writes of text token data", n, 1)
+	c.R.Floor(rule, "CDATA sections converted to text", m, 1)
 }
